@@ -58,7 +58,9 @@ pub fn gen_solver<VS: HSet>(sink: &mut Sink, prop: &str, thorough: bool, seed: u
             push_solve(sink, prop, &r);
         }
     }
-    let _ = thorough;
+    if VS::KIND == "range" {
+        exhaustive_scope::<VS>(sink, prop, thorough, debug);
+    }
     for i in 0..n_random {
         let reg = if i % 12 == 11 {
             big_registry::<VS>(&mut rng, &versions)
@@ -72,6 +74,66 @@ pub fn gen_solver<VS: HSet>(sink: &mut Sink, prop: &str, thorough: bool, seed: u
         let r = SolveReq { debug, root: "root".into(), rv, reg, strat: random_strat(&mut rng), fault: Fault::None };
         push_solve(sink, prop, &r);
     }
+}
+
+/// Exhaustive small scopes (every registry of the shape, not a sample):
+/// scope A (thorough): packages root (version 1) and a (versions 1, 3), every version may depend on `a`
+///   (8 choices: none or one of 7 sets incl. the empty set, the full set and the member-free `1<v<3`)
+///   and on `root` (4 choices: none, full, {1}, empty) - self-dependencies and cycles through the root
+///   included: 32^3 = 32 768 registries;
+/// scope B (both tiers): packages root (1), a (1, 3), b (1, 3); root depends on a and on b, each a@v on
+///   b, each b@v on a (a cycle), every dependency none or one of 4 sets: 5^6 = 15 625 registries.
+fn exhaustive_scope<VS: HSet>(sink: &mut Sink, prop: &str, thorough: bool, debug: bool) {
+    let sets7: Vec<Option<VS>> = std::iter::once(None)
+        .chain(["-", "u:u", "i1:i1", "i3:i3", "i3:u", "u:e3", "e1:e3"].iter().map(|m| Some(VS::from_machine(m))))
+        .collect();
+    let sets4: Vec<Option<VS>> = std::iter::once(None)
+        .chain(["u:u", "i1:i1", "i3:i3", "-"].iter().map(|m| Some(VS::from_machine(m))))
+        .collect();
+    let rootsets: Vec<Option<VS>> = std::iter::once(None)
+        .chain(["u:u", "i1:i1", "-"].iter().map(|m| Some(VS::from_machine(m))))
+        .collect();
+    let dep = |q: &str, s: &Option<VS>| -> Vec<(String, VS)> {
+        match s {
+            None => vec![],
+            Some(x) => vec![(q.to_string(), VS::from_machine(&x.to_machine()))],
+        }
+    };
+    let strategies: &[Strat] = if thorough { &[Strat::NewestFewest, Strat::OldestFewest] } else { &[Strat::NewestFewest] };
+    let mut count = 0u64;
+    // scope B
+    for ra in &sets4 { for rb in &sets4 { for a1 in &sets4 { for a3 in &sets4 { for b1 in &sets4 { for b3 in &sets4 {
+        let mut entries = BTreeMap::new();
+        let mut d = dep("a", ra); d.extend(dep("b", rb));
+        entries.insert(("root".to_string(), 1u32), Ok(d));
+        entries.insert(("a".to_string(), 1u32), Ok(dep("b", a1)));
+        entries.insert(("a".to_string(), 3u32), Ok(dep("b", a3)));
+        entries.insert(("b".to_string(), 1u32), Ok(dep("a", b1)));
+        entries.insert(("b".to_string(), 3u32), Ok(dep("a", b3)));
+        for st in strategies {
+            let r = SolveReq { debug, root: "root".into(), rv: 1, reg: Registry { entries: entries.clone() }, strat: st.clone(), fault: Fault::None };
+            push_solve(sink, prop, &r);
+            count += 1;
+        }
+    }}}}}}
+    sink.notes.push(format!("exhaustive scope B: all 5^6 = 15625 registries root(1) a(1,3) b(1,3), root->a,b; a@v->b; b@v->a (cyclic), sets in {{none,*,{{1}},{{3}},empty}}, {} strategies: {} runs mirrored", strategies.len(), count));
+    if !thorough {
+        return;
+    }
+    let mut count_a = 0u64;
+    for ra in &sets7 { for rr in &rootsets { for a1a in &sets7 { for a1r in &rootsets { for a3a in &sets7 { for a3r in &rootsets {
+        let mut entries = BTreeMap::new();
+        let mut d = dep("a", ra); d.extend(dep("root", rr));
+        entries.insert(("root".to_string(), 1u32), Ok(d));
+        let mut d = dep("a", a1a); d.extend(dep("root", a1r));
+        entries.insert(("a".to_string(), 1u32), Ok(d));
+        let mut d = dep("a", a3a); d.extend(dep("root", a3r));
+        entries.insert(("a".to_string(), 3u32), Ok(d));
+        let r = SolveReq { debug, root: "root".into(), rv: 1, reg: Registry { entries }, strat: if count_a % 2 == 0 { Strat::NewestFewest } else { Strat::OldestFewest }, fault: Fault::None };
+        push_solve(sink, prop, &r);
+        count_a += 1;
+    }}}}}}
+    sink.notes.push(format!("exhaustive scope A: all 32^3 = 32768 registries root(1) a(1,3) with dependencies on a (8 choices incl. the member-free set 1<v<3) and on root (4 choices) - self-dependencies and cycles through the root: {} runs mirrored", count_a));
 }
 
 /// C13: for every base case and every index k of its fault-free callback trace, the run in which
